@@ -27,6 +27,15 @@ CHECKS = {
     "C07": dict(engine="A+E", technique="bounded-exhaustive exponent alphabet x bases x routines vs Python pow; enumeration of all random-source answer sequences with <= 2 deviations",
                 text="All exponents of S(256) x GT bases x 6 exponentiation routes on 3 back ends equal Python pow; group operations on all base pairs; every answer sequence of the random source with at most 2 deviations in the first 12 digit requests (plus tuples hitting y=r-1,r,r+1) yields exactly the exact-rejection-sampling y and base^y.",
                 note="uniformity decided functionally (exact rejection sampling), not statistically", ref="4/C07"),
+    "C08": dict(engine="B", technique="exhaustive enumeration of all (affine list, prepared list) shapes up to a length bound, each evaluated twice on the same pair arrays",
+                text="Every list of total length 0..3 (4 thorough) over {P1,P2,O}x{Q1,Q2,O} in every split between plain and prepared pairs is evaluated twice in a row on the same arrays (cursor fields pre-filled with garbage) through both product entry points and must equal the model's product of single pairings.",
+                note="single pairings decided by C01; portable back ends run every 4th list", ref="4/C08"),
+    "C09": dict(engine="A", technique="bounded-exhaustive byte-string mutations of every valid encoding (all flag settings x coordinate variants, every identity byte position, full first-byte sweep) against a Python specification of validating decode",
+                text="For every alphabet point and encoding form, all 8 flag settings x coordinate variants (+q per component, stray top bits, no-y x, non-subgroup point, -y, off-curve y), identity strings with one non-zero byte at every position and all 256 first bytes over 3 tails are decoded; accept iff the Python specification accepts, with the same point; unchecked decode agrees on valid input.",
+                note="Python decode_model is the specification; 'greater' flag pinned to the library's internal-residue order", ref="4/C09"),
+    "C10": dict(engine="A+E", technique="bounded-exhaustive hash strings vs exact specification; enumeration of all random-source answer sequences (typed by request length) with <= 2 deviations in the first 10 requests",
+                text="Hash strings incl. long try-and-increment miss runs, wrap-around, unreduced values and all top-bit patterns are compared with the exact specification on 3 back ends; every sampling routine is run under every answer sequence of the typed menus with at most 2 deviations and must satisfy the post-conditions (range, non-identity, on curve, subgroup, consistency, determinism, termination).",
+                note="post-conditions only (robust to draw order); subgroup membership via the library's check plus Python on a subset", ref="4/C10"),
 }
 
 LEVEL = "model_checking"
